@@ -282,3 +282,17 @@ func init() {
 		return p.e.strOf((&net.TCPAddr{IP: net.IP(raw), Port: int(port.S())}).String())
 	}
 }
+
+func init() {
+	// vfTrace(msg): prints a concrete message on stderr when VERIF_DEBUG is set (harness debugging)
+	intrinsics["vfTrace"] = func(p *Path, fr *frame, a []Value) Value {
+		if debugOn {
+			if s, ok := a[0].(*Str).Concrete(); ok {
+				dbg("trace: %s", s)
+			} else {
+				dbg("trace: <symbolic string of %d bytes>", len(a[0].(*Str).b))
+			}
+		}
+		return nil
+	}
+}
